@@ -69,9 +69,22 @@ def body_schemas(v30: bool):
         {"type": "object", "required": ["n"], "properties": {"n": {"type": "integer", nullable: True}}},
         {"type": "array", "items": {"$ref": ref}},
     ]
-    if v30:
-        pool.append({"type": "object", "properties": {"pw": {"type": "string", "writeOnly": True}, "id": {"type": "integer"}}})
+    wo = "writeOnly" if v30 else "x-writeOnly"
+    uref = "#/components/schemas/User" if v30 else "#/definitions/User"
+    pool += [
+        {"type": "object", "properties": {"pw": {"type": "string", wo: True}, "id": {"type": "integer"}}, "required": ["id", "pw"]},
+        {"type": "object", "properties": {"pw": {"type": "string", "x-writeOnly": True}, "id": {"type": "integer"}}},
+        {"type": "object", "properties": {"u": {"type": "object", "properties": {"pw": {"type": "string", wo: True}}}}},
+        {"$ref": uref},
+        {"type": "array", "items": {"$ref": uref}},
+        {"type": "object", "properties": {"id": {"type": "integer", "readOnly": True}}, "required": ["id"]},
+    ]
     return pool
+
+
+def user_schema(v30: bool):
+    wo = "writeOnly" if v30 else "x-writeOnly"
+    return {"type": "object", "required": ["id", "pw"], "properties": {"id": {"type": "integer"}, "name": {"type": "string"}, "pw": {"type": "string", wo: True}}}
 
 
 def item_schema(v30: bool):
@@ -80,7 +93,7 @@ def item_schema(v30: bool):
 
 
 BODIES = [
-    b'{"id": 1}', b"{}", b"[]", b'["a"]', b"[1]", b"null", b'"s"', b"5", b"-1", b'{"id": "x"}', b'{"pw": "s", "id": 1}', b'{"id": 2, "x": null}',
+    b'{"id": 1}', b"{}", b"[]", b'{"id": 1, "pw": "s"}', b'{"u": {"pw": "s"}}', b'{"u": {}}', b'[{"id": 1}, {"id": 2, "pw": "s"}]', b'[{"id": 1}, {"id": 2, "name": "n"}]', b'["a"]', b"[1]", b"null", b'"s"', b"5", b"-1", b'{"id": "x"}', b'{"pw": "s", "id": 1}', b'{"id": 2, "x": null}',
     b'{"n": null}', b'{"n": "1"}', b'{"name": null}', b'{"name": 3}', b'[{"name": "a"}]', b'[{"name": 1}]', b"1.5",
     b"{", b"", b'{"id": 1} x', b"\xff", b'{"id": 1}\xc3', "é".encode(), '"中"'.encode(),
 ]
@@ -172,14 +185,14 @@ def gen_doc(rng, weird=False, clean=False):
     op = {"responses": responses}
     if v30:
         raw["openapi"] = rng.choice(["3.0.2", "3.0.0", "3.0.3"])
-        comps = {"schemas": {"Item": item_schema(True)}}
+        comps = {"schemas": {"Item": item_schema(True), "User": user_schema(True)}}
         if comp_responses:
             comps["responses"] = comp_responses
         comps["headers"] = {n: gen_header(rng, True) for n in hdr_names}
         raw["components"] = comps
     else:
         raw["swagger"] = "2.0"
-        raw["definitions"] = {"Item": item_schema(False)}
+        raw["definitions"] = {"Item": item_schema(False), "User": user_schema(False)}
         if comp_responses:
             raw["responses"] = comp_responses
         k = rng.random()
@@ -554,19 +567,28 @@ def o_media_match(doc, got):
     return (doc[0] in ("*", got[0])) and (doc[1] in ("*", got[1]))
 
 
+def o_write_only(ps):
+    return isinstance(ps, dict) and (ps.get("writeOnly") is True or ps.get("x-writeOnly") is True)
+
+
 def o_schema(raw, s, v30, depth=0):
     """OpenAPI Schema Object -> JSON Schema for a RESPONSE body: references inlined, nullable admits null,
-    a writeOnly property must not occur."""
+    a writeOnly / x-writeOnly property must not occur and is not required (readOnly changes nothing in a response)."""
     if depth > 20 or not isinstance(s, dict):
         return s
     if "$ref" in s:
         return o_schema(raw, o_pointer(raw, s["$ref"]), v30, depth + 1)
     out = {}
+    hidden = [p for p, ps in (s.get("properties") or {}).items() if o_write_only(ps)] if isinstance(s.get("properties"), dict) else []
     for k, val in s.items():
-        if k in ("nullable", "x-nullable", "writeOnly"):
+        if k in ("nullable", "x-nullable", "writeOnly", "x-writeOnly", "readOnly"):
             continue
         if k == "properties":
-            out[k] = {p: ({"not": {}} if isinstance(ps, dict) and ps.get("writeOnly") is True else o_schema(raw, ps, v30, depth + 1)) for p, ps in val.items()}
+            out[k] = {p: ({"not": {}} if p in hidden else o_schema(raw, ps, v30, depth + 1)) for p, ps in val.items()}
+        elif k == "required":
+            req = [n for n in val if n not in hidden]
+            if req:
+                out[k] = req
         elif k == "items" and isinstance(val, dict):
             out[k] = o_schema(raw, val, v30, depth + 1)
         elif k in ("allOf", "anyOf", "oneOf"):
@@ -693,6 +715,221 @@ def expand_stage(chk, rng, n):
 
 
 # ----------------------------------------------------------------------------------------
+# ----------------------------------------------------------------------------------------
+# writeOnly rewrite and histories on ONE loaded schema
+# ----------------------------------------------------------------------------------------
+PROP_NAMES = ["id", "name", "pw", "tok", "sec"]
+
+
+def gen_oschema(rng, v30, dup_required=False):
+    names = rng.sample(PROP_NAMES, rng.choice([1, 2, 3, 3, 4, 5]))
+    props = []
+    for n in names:
+        k = rng.random()
+        kw = None
+        if k < 0.4:
+            kw = rng.choice(["writeOnly", "x-writeOnly"]) if v30 else "x-writeOnly"
+        elif k < 0.5:
+            kw = "readOnly"
+        props.append([n, kw])
+    required = [n for n in rng.sample(names, len(names)) if rng.random() < 0.5]
+    if rng.random() < 0.1:
+        required.append("zz")
+    if dup_required and required and rng.random() < 0.3:
+        required.insert(rng.randrange(len(required) + 1), rng.choice(required))
+    return {"props": props, "required": required}
+
+
+def oschema_dict(o):
+    d = {"type": "object", "properties": {n: ({"type": "string", kw: True} if kw else {"type": "string"}) for n, kw in o["props"]}}
+    if o["required"] or o.get("keep_empty_required"):
+        d["required"] = list(o["required"])
+    return d
+
+
+def is_wo_kw(kw):
+    return kw in ("writeOnly", "x-writeOnly")
+
+
+def c_oschema(o):
+    return "{| o_props := %s; o_required := %s |}" % (
+        clist([ctuple(cstr(n), cbool(is_wo_kw(kw))) for n, kw in o["props"]], "(str * bool)"), clist([cstr(n) for n in o["required"]], "str"))
+
+
+def gen_present(rng, o):
+    names = [n for n, _ in o["props"]]
+    return [n for n in names if rng.random() < 0.6] + (["extra"] if rng.random() < 0.1 else [])
+
+
+def c_present(p):
+    return clist([cstr(n) for n in p], "str")
+
+
+def dict_to_o(d):
+    props = [[n, ps] for n, ps in (d.get("properties") or {}).items()]
+    return {"props": [(n, bool(ps.get("writeOnly") or ps.get("x-writeOnly"))) for n, ps in props], "required": list(d.get("required", []))}
+
+
+def jsonschema_ok(schema, instance):
+    import jsonschema
+
+    return jsonschema.Draft4Validator(schema).is_valid(instance)
+
+
+def convert_stage(chk, rng, n):
+    """converter.to_json_schema on object schemas of responses vs Model_C04.to_json_schema_obj: the result AND the
+    caller's schema object after the call; validity of instances under the result vs the documentation."""
+    from schemathesis.specs.openapi.converter import to_json_schema
+
+    objs = [(gen_oschema(rng, i % 2 == 0, dup_required=(i % 5 == 4)), i % 2 == 0) for i in range(n)]
+    exprs, presents = [], []
+    for o, v30 in objs:
+        ps = [gen_present(rng, o) for _ in range(4)]
+        presents.append(ps)
+        so = c_oschema(o)
+        exprs.append(
+            f"(let s := {so} in (to_json_schema_obj s, {clist([f'jvalid (fst (to_json_schema_obj s)) {c_present(q)}' for q in ps], 'bool')}, "
+            f"{clist([f'ovalid s {c_present(q)}' for q in ps], 'bool')}, single_writeonly s && nodupb (o_required s)))"
+        )
+    model = core.coq_eval(IMPORTS, exprs)
+    bad = 0
+    for (o, v30), ps, (mj, mleft, mjv, mov, inside) in zip(objs, presents, model):
+        d = oschema_dict(o)
+        before = copy.deepcopy(d)
+        out = to_json_schema(d, nullable_name="nullable" if v30 else "x-nullable", is_response_schema=True, update_quantifiers=False)
+        impl = {
+            "props": list(out.get("properties", {})),
+            "required": list(out.get("required", [])),
+            "forbidden": sorted((out.get("not") or {}).get("required", [])),
+            "schema_object_after_call": dict_to_o(d),
+        }
+        mod = {
+            "props": [pstr(x) for x in mj["j_props"]],
+            "required": [pstr(x) for x in mj["j_required"]],
+            "forbidden": sorted(pstr(x) for x in mj["j_forbidden"]),
+            "schema_object_after_call": {"props": [(pstr(a), b) for a, b in mleft["o_props"]], "required": [pstr(x) for x in mleft["o_required"]]},
+        }
+        n_wo = sum(1 for _, kw in o["props"] if is_wo_kw(kw))
+        chk.seen({"convert": o}, n_wo > 0)
+        chk.count(f"convert:writeOnly_props:{min(n_wo, 3)}")
+        if impl != mod:
+            bad += 1
+            chk.disagree("converter.to_json_schema (result, caller's schema after the call) vs Model_C04.to_json_schema_obj", {"schema": before}, impl, mod)
+            continue
+        if len(set(o["required"])) != len(o["required"]):
+            continue  # required with duplicates is not a schema: only the rewrite itself is compared
+        for q, jv, ov in zip(ps, mjv, mov):
+            inst = {name: "v" for name in q}
+            real = jsonschema_ok(out, inst)
+            documented = jsonschema_ok(o_schema({}, before, v30), inst)
+            if real != jv or documented != ov:
+                bad += 1
+                chk.disagree("jsonschema on the converted schema / oracle vs Model_C04.jvalid / ovalid", {"schema": before, "instance": inst}, [real, documented], [jv, ov])
+            elif real != documented:
+                chk.fail("converted response schema and documentation disagree on an instance (writeOnly)", {"schema": before, "instance": inst},
+                         {"converted_accepts": real, "documentation_allows": documented}, region=None if inside else "single_writeonly")
+    chk.stages["correspondence_writeonly_conversion"] = {"schemas": len(objs), "instances": 4 * len(objs), "disagreements": bad}
+
+
+LAYOUTS = ["inline", "ref", "array", "pair", "nested"]
+
+
+def history_doc(o, v30, layout):
+    user = oschema_dict(o)
+    ref = {"$ref": "#/components/schemas/User" if v30 else "#/definitions/User"}
+    top = {"inline": user, "ref": ref, "array": {"type": "array", "items": ref},
+           "pair": {"type": "object", "properties": {"owner": ref, "editor": ref}},
+           "nested": {"type": "object", "properties": {"u": user}}}[layout]
+    raw = {"info": {"title": "t", "version": "1"}}
+    if v30:
+        raw["openapi"] = "3.0.2"
+        raw["components"] = {"schemas": {"User": copy.deepcopy(user)}}
+        raw["paths"] = {"/x": {"get": {"responses": {"200": {"description": "", "content": {"application/json": {"schema": top}}}}}}}
+    else:
+        raw["swagger"] = "2.0"
+        raw["produces"] = ["application/json"]
+        raw["definitions"] = {"User": copy.deepcopy(user)}
+        raw["paths"] = {"/x": {"get": {"responses": {"200": {"description": "", "schema": top}}}}}
+    return raw
+
+
+def history_body(layout, insts):
+    objs = [{n: "v" for n in q} for q in insts]
+    if layout in ("inline", "ref"):
+        return objs[0]
+    if layout == "array":
+        return objs
+    if layout == "pair":
+        return {"owner": objs[0], "editor": objs[1]}
+    return {"u": objs[0]}
+
+
+def history_stage(chk, rng, ndocs):
+    """2-4 validations one after another on ONE loaded schema: every verdict must equal the verdict of a freshly loaded
+    schema on the same response, the independent oracle's, and Model_C04.verdict_seq's; the loaded document must be left unchanged."""
+    runs = []
+    exprs = []
+    for i in range(ndocs):
+        v30 = rng.random() < 0.6
+        o = gen_oschema(rng, v30)
+        layout = LAYOUTS[i % len(LAYOUTS)]
+        raw = history_doc(o, v30, layout)
+        steps = []
+        for _ in range(rng.choice([2, 3, 3, 4])):
+            k = {"inline": 1, "ref": 1, "nested": 1, "pair": 2}.get(layout) or rng.choice([0, 1, 2, 3])
+            insts = [gen_present(rng, o) for _ in range(k)]
+            if rng.random() < 0.35 and steps:
+                insts = copy.deepcopy(rng.choice(steps)["insts"])  # the very same response again
+            body = json.dumps(history_body(layout, insts)).encode()
+            steps.append({"insts": insts, "response": {"status": 200, "headers": {"Content-Type": ["application/json"]}, "body_hex": body.hex()}})
+        runs.append((raw, o, v30, layout, steps))
+        sch = "Some {| s_id := 0%N; s_truthy := true |}"
+        if v30:
+            body_def = "{| r_content := [(%s, %s)]; r_schema20 := None; r_headers := [] |}" % (cstr("application/json"), sch)
+            d = "{| d_v30 := true; d_responses := [(KStr %s, RInline %s)]; d_components := []; d_produces_op := []; d_produces_global := [] |}" % (cstr("200"), body_def)
+        else:
+            body_def = "{| r_content := []; r_schema20 := %s; r_headers := [] |}" % sch
+            d = "{| d_v30 := false; d_responses := [(KStr %s, RInline %s)]; d_components := []; d_produces_op := []; d_produces_global := [%s] |}" % (cstr("200"), body_def, cstr("application/json"))
+        insts_c = clist([clist([c_present(q) for q in st["insts"]], "(list str)") for st in steps], "(list (list str))")
+        rs = clist(["{| status := 200%%N; rheaders := [(%s, %s)]; rbody_ := Json %s |}" % (cstr("content-type"), cstr("application/json"), cN(j)) for j in range(len(steps))], "response")
+        exprs.append(
+            f"(verdict_seq (fun _ _ => true) (fun did => nth (N.to_nat did) {insts_c} []) {d} [(0%N, {c_oschema(o)})] {rs}, "
+            f"single_writeonly {c_oschema(o)} && nodupb (o_required {c_oschema(o)}))"
+        )
+    model = core.coq_eval(IMPORTS, exprs, shard=100)
+    n_steps = n_hist = n_model = 0
+    for (raw, o, v30, layout, steps), (m_seq, inside) in zip(runs, model):
+        loaded = load(raw)
+        chk.count("history:" + layout + (":3.0" if v30 else ":2.0"))
+        history = []
+        for j, st in enumerate(steps):
+            n_steps += 1
+            resp = st["response"]
+            same = impl_run(loaded, resp)
+            fresh = impl_run(load(raw), resp)
+            dev, _ = oracle(raw, resp)
+            unchanged = loaded.raw_schema == raw
+            history.append(json.loads(bytes.fromhex(resp["body_hex"])))
+            canon = {"doc": raw, "layout": layout, "validated_one_after_another": list(history), "step": j + 1}
+            chk.seen({"history": canon}, bool(dev) or j > 0)
+            mv = sorted({FK_CLASS[k] for k in m_seq[j]})
+            got = sorted({c for o_ in same if not isinstance(o_, str) for c in o_})
+            crashed = any(isinstance(o_, str) for o_ in same)
+            if crashed or got != mv:
+                n_model += 1
+                if n_model <= 10:
+                    chk.disagree("validations in sequence on one loaded schema vs Model_C04.verdict_seq", canon, dict(zip(CHECK_NAMES, same)), mv)
+            if same != fresh or not unchanged:
+                n_hist += 1
+                chk.fail("verdict depends on what was validated before (same response, freshly loaded schema: "
+                         f"{dict(zip(CHECK_NAMES, fresh))}; this schema after {j} validations: {dict(zip(CHECK_NAMES, same))}; loaded document unchanged: {unchanged})",
+                         canon, region=None)
+            elif any(o_ for o_ in same) != bool(dev):
+                chk.fail(("deviation passed (miss)" if dev else "conforming response failed (false alarm)") + f": oracle {sorted(dev)} vs checks {dict(zip(CHECK_NAMES, same))}",
+                         canon, region=None if inside else "single_writeonly")
+    chk.stages["histories"] = {"documents": len(runs), "validations": n_steps, "history_dependent": n_hist, "model_disagreements": n_model}
+
+
 CRASH_REGION = {"RAISES ValueError": "keys_parse", "RAISES UnicodeDecodeError": "body_decodes", "RAISES MalformedMediaType": "ct_wellformed",
                 "RAISES RefResolutionError": "flat_refs"}
 
@@ -742,6 +979,8 @@ def run(chk: core.Check):
 
     media_parse_stage(chk, rng, 300 if quick else 3000)
     expand_stage(chk, rng, 150 if quick else 1500)
+    convert_stage(chk, rng, 300 if quick else 3000)
+    history_stage(chk, rng, 250 if quick else 2500)
 
     # ---- corpus + generated (document, response) pairs
     corpus = [json.loads(p.read_text()) for p in sorted((core.VERIF / "corpus" / "C04").glob("*.json"))]
@@ -757,7 +996,7 @@ def run(chk: core.Check):
             cases.append((raw, gen_response(rng, raw, weird), weird))
     for f in chk.findings:
         w = f["witness"]
-        cases.append((_intkeys(w["doc"]), w["response"], False))
+        cases.append((_intkeys(w["doc"]), w["response"], f.get("region") not in REGIONS))
 
     exprs, impls, kept = [], [], []
     cache = {}
